@@ -73,6 +73,7 @@ func simLeafCert(id int) []byte {
 }
 
 type simHTTPSub struct {
+	unexplainedWait bool // the handler neither answered nor visibly parked its submission within the grace period
 	Entry    *simEntry
 	rec      *httptest.ResponseRecorder
 	done     chan struct{}
@@ -138,13 +139,22 @@ func (s *simSys) simHTTPSubmit(in *simInst, id int, der []byte) *simHTTPSub {
 		in.l.poolMu.Lock()
 		n := len(cur.pendingLeaves)
 		_, parked := cur.byHash[computeCacheHash(e.P.Certificate, e.P.IsPrecert, e.P.IssuerKeyHash)]
+		for _, pl := range cur.pendingLeaves {
+			// an equal entry is pending: whenever the handler gets there, its answer hangs on that entry
+			if pl.IsPrecert == e.P.IsPrecert && pl.IssuerKeyHash == e.P.IssuerKeyHash && bytes.Equal(pl.Certificate, e.P.Certificate) {
+				parked = true
+			}
+		}
 		in.l.poolMu.Unlock()
 		if n > before || parked {
 			return sub
 		}
-		if i > 1000 && time.Since(start) > 2*time.Minute {
-			// waiting for the handler goroutine to get scheduled; never a verdict about the property
-			panic("VERIF-INCONCLUSIVE: HTTP submission neither answered nor reached the pool within 2 minutes")
+		if i > 1000 && time.Since(start) > 10*time.Second {
+			// Neither answered, nor admitted to the pool, nor equal to anything pending: the handler is waiting for
+			// something the harness cannot name. The round goes on; the answer is judged when it arrives
+			// (simHTTPCollect: SCT over the submitted entry, index holding it), and if it never does the case is inconclusive.
+			sub.unexplainedWait = true
+			return sub
 		}
 		runtime.Gosched()
 		if i%100 == 99 {
